@@ -1136,10 +1136,21 @@ class Circuit {
   std::vector<Row> rows_;
 
   /**
-   * @brief Indicate that the circuit is actively being worked on and shouldn't
-   * be modified
+   * @brief Flag that belongs to the object: it is not transmitted when the
+   * circuit is copied or assigned
    */
-  bool isInUse_;
+  struct ObjectFlag {
+    bool value = false;
+    ObjectFlag() = default;
+    ObjectFlag(const ObjectFlag &) {}
+    ObjectFlag &operator=(const ObjectFlag &) { return *this; }
+  };
+
+  /**
+   * @brief Indicate that the circuit is actively being worked on and shouldn't
+   * be modified. A copy taken from a callback is not being worked on.
+   */
+  ObjectFlag isInUse_;
 
   // Set whenever an update has been made to the circuit
   bool hasCellSizeUpdate_;
